@@ -179,6 +179,18 @@ def run_shard(spec, tier, scratch):
         cfg, picks = r
         # (a one-message pipe cannot be reproduced with a real 64 KiB pipe: those configurations are model-only)
         real_replays(res, c, cfg, picks, None, tier, REAL_REPLAYS[tier])
+        if tier == "thorough" and c["nrec"] <= 2 and c["cpu_count"] == 16:
+            # the smallest configurations: EVERY schedule with <= 2 deviations is replayed on real processes
+            from mc import vmp
+
+            def on(x):
+                err = rc.conform_real(cfg, x.choices, None, x)
+                if err is not None:
+                    raise fw.HarnessError(f"real-process replay of schedule {x.choices} ({rc.cfg_key(c)}) does not conform to the model: {err}")
+                res.count("traces_validated_against_impl")
+                res.count("all_schedules_replayed_on_real_processes")
+
+            vmp.Explorer(cfg, bound=2, on_exec=on, max_execs=400).explore()
     return res
 
 
